@@ -709,6 +709,61 @@ fn run_comes_back(x: &[u64], trace: bool) -> CaseResult {
     res
 }
 
+// ---------------------------------------------------------------- probing starts over after a lost tiebreak
+
+/// While the service is probing, a peer's simultaneous probe with later data arrives (for the host
+/// name or for the instance name, after the first or the second probe).  The daemon defers and
+/// starts over: the new round must again consist of three probes 250 ms apart and 250 ms of quiet
+/// before the announcement.  x = [0 host / 1 instance, 0 after the 1st / 1 after the 2nd probe, jitter index].
+fn run_lost_tiebreak(x: &[u64], trace: bool) -> CaseResult {
+    let mut res = CaseResult::default();
+    let jitter = [0u64, 137, 249][x[2] as usize];
+    let mut w = World::one(lay_v4());
+    w.trace = trace;
+    w.ds[0].ctl.set_rng_default(jitter);
+    w.ds[0].h.set_ip_check_interval(0).unwrap();
+    w.poke(0);
+    let t_reg = w.now;
+    w.ds[0].h.register(svc("_t._tcp.local.", "one", "host.local.", "10.0.0.5", 80, &[("k", "v")])).unwrap();
+    w.poke(0);
+    w.run_until(t_reg + jitter + 40 + 250 * x[1]);
+    let inst = n("one._t._tcp.local");
+    let host = n("host.local");
+    let ty = n("_t._tcp.local");
+    let mut q = if x[0] == 0 { query(vec![(host.clone(), T_ANY)]) } else { query(vec![(inst.clone(), T_ANY)]) };
+    let mut r = if x[0] == 0 { a(&host, [10, 0, 0, 200], 120) } else { srv(&inst, &n("zzz.local"), 9999, 120) };
+    r.flush = false;
+    q.authorities.push(r);
+    let t_loss = w.now;
+    w.deliver(0, IF0, PEER0, build(&q));
+    w.run_until(t_loss + 6000);
+    if let Some(f) = daemon_fault(&w, 0) {
+        res.viols.push(viol("C07|T|daemon-fault", f));
+        return res;
+    }
+    let all = outs(&w, 0, 0);
+    let what = if x[0] == 0 { &host } else { &inst };
+    let probes: Vec<u64> = all.iter().filter(|(t, o)| *t > t_loss && o.msg.as_ref().is_ok_and(|m| !m.is_response() && m.questions.iter().any(|q| q.qtype == T_ANY && name_eq_ci(&q.name, what)) && !m.authorities.is_empty())).map(|(t, _)| *t).collect();
+    let anns: Vec<u64> = all.iter().filter(|(t, o)| *t > t_loss && o.is_multicast() && o.msg.as_ref().is_ok_and(|m| m.is_response() && m.answers.iter().any(|r| r.rtype == T_PTR && r.ttl > 0 && name_eq_ci(&r.name, &ty)))).map(|(t, _)| *t).collect();
+    let rel = |v: &[u64]| v.iter().map(|t| t - t_loss).collect::<Vec<_>>();
+    let ctx = format!("{} tiebreak lost after probe {} (jitter {jitter}): afterwards probes at {:?}, announcements at {:?} (ms after the loss)", if x[0] == 0 { "host-name" } else { "instance-name" }, x[1] + 1, rel(&probes), rel(&anns));
+    res.count("lost_tiebreaks_checked", 1);
+    match anns.first() {
+        None => res.viols.push(viol("C07|T|not-announced-after-a-lost-tiebreak-against-a-peer-that-then-stays-silent", ctx)),
+        Some(a1) => {
+            let before: Vec<u64> = probes.iter().copied().filter(|p| p < a1).collect();
+            if before.len() < 3 || before[before.len() - 3..].windows(2).any(|p| p[1] - p[0] < 250) || a1 - before[before.len() - 1] < 250 {
+                res.viols.push(viol(format!("C07|T|announced-without-three-probes-250ms-apart-after-a-lost-tiebreak|{}", if x[0] == 0 { "host" } else { "instance" }), ctx));
+            }
+        }
+    }
+    res.nontrivial = true;
+    res.transitions = w.steps;
+    res.outcome = outcome_hash(&w.log);
+    res.states = final_states(&w);
+    res
+}
+
 pub fn check(tier: &str) -> i32 {
     let mut rep = Report::new("C07", tier, "model_checking");
     let thorough = rep.thorough();
@@ -790,6 +845,16 @@ pub fn check(tier: &str) -> i32 {
         run: Box::new(move |i, tr| run_hist(&hseq(i / 6), hj[(i % 3) as usize], i % 6 >= 3, tr)),
     };
     rep.run_part(&hist, Duration::from_secs(if thorough { 3000 } else { 50 }));
+    let tdims = [2u64, 2, 3];
+    let lost = FnPart {
+        name: "probing-starts-over-after-a-lost-tiebreak".into(),
+        rule: "a registration is probing; after its 1st / 2nd probe a peer's simultaneous probe with later data for the (host | instance) name arrives, then the peer stays silent; 3 jitters; the round the daemon starts over with must again be three probes 250 ms apart and 250 ms of quiet before the first announcement".into(),
+        n: product(&tdims),
+        describe: Box::new(move |i| format!("{:?}", unrank(i, &tdims))),
+        run: Box::new(move |i, tr| run_lost_tiebreak(&unrank(i, &tdims), tr)),
+    };
+    rep.run_part(&lost, Duration::from_secs(120));
+    rep.require("probing-starts-over-after-a-lost-tiebreak", "lost_tiebreaks_checked");
     let bdims = [3u64, 3, 2];
     let back = FnPart {
         name: "interface-or-family-comes-back".into(),
